@@ -52,6 +52,10 @@ func TestVerifC12Handle(t *testing.T) {
 		f.RDNSS = []model.RDNSSSt{{Lifetime: model.D(int64(time.Hour)), Servers: []model.Server{model.MkServer("2001:db8::53")}}}
 		f.DNSSL = []model.DNSSLSt{{Lifetime: model.D(int64(time.Hour)), Names: []string{"example.com"}}}
 		if sr.Intn(2) == 0 {
+			// names are advertised as configured, letter case included
+			f.DNSSL = []model.DNSSLSt{{Lifetime: model.D(int64(time.Hour)), Names: []string{"Corp.Example.COM", "lan.example.net"}}}
+		}
+		if sr.Intn(2) == 0 {
 			f.CaptivePortal, f.CaptivePortalNorm, f.CaptivePortalOK = model.S("https://portal.example/a"), "https://portal.example/a", model.Yes
 		}
 		// our own RA is not static: a deprecated prefix and route count down, so the
@@ -192,6 +196,16 @@ func TestVerifC12Handle(t *testing.T) {
 					viol, cls = fmt.Sprintf("%d inconsistency log lines (+%d header) for %d expected inconsistencies", nItems, nHeader, len(want)), "log"
 					break
 				}
+				// examining a peer's RA must leave our own untouched: the RA the
+				// configuration calls for now is still what it was
+				if mine, _, merr := ifi.RouterAdvertisement(true); merr != nil {
+					viol, cls = "our RA can no longer be built after a peer's RA was examined: "+merr.Error(), "own-ra-altered"
+					break
+				} else if dd := model.DiffRA(h.expectRA(true, false), model.FromNDP(mine)); dd != "" {
+					viol, cls = "after a peer's RA was examined our own RA differs from what the configuration calls for: "+dd, "own-ra-altered"
+					break
+				}
+				r.Count("own_ra_rechecked_after_peer_ra", 1)
 				all, _ := h.mm.Series()
 				got := all[advInconsistencies].Samples
 				if dd := vDiffSamples(shadow, got); dd != "" {
